@@ -377,6 +377,21 @@ class FamWorld:
                         chosen.append(own[k % len(own)])
                 for b in chosen[: MAX_FAMILIES - len(self.fams)]:
                     new.append(Family("bar", b, route, src.index))
+        elif route == "toseq_copy":
+            # Bar.to_sequence / Track.to_sequence share by design; the *copy* of their result must be independent again
+            if src.kind == "seq":
+                return "skip:kind"
+            if src.kind == "track":
+                sq, e = _call(src.root.to_sequence)
+            else:
+                sq, e = _call(Bar.to_sequence, src.bars())
+            if e is not None:
+                raise seqops_Foreign(f"to_sequence:{type(e).__name__}")
+            c, e = _call(sq.copy)
+            if e is not None:
+                raise _V(Violation("COPY-RAISED", f"copy() of a to_sequence result raised {type(e).__name__}: {e}",
+                                   {"route": route, "op": "derive"}))
+            new.append(Family("seq", c, route, src.index))
         elif route == "from_sequences":
             if src.kind != "seq":
                 return "skip:kind"
@@ -873,7 +888,7 @@ def _gen_derive(rng, world, fi, fam, prop):
     if fam.kind == "seq":
         routes += ["split", "split", "bars_q", "bars_nq", "bars_nq", "from_sequences"]
     elif prop == "C16" and rng.random() < 0.3:
-        routes += ["split"]
+        routes += ["split", "toseq_copy"]
     route = rng.choice(routes)
     ev = {"op": "derive", "route": route, "src": fi}
     if route == "split":
@@ -1135,7 +1150,7 @@ class C16Engine(_FamEngine):
 
     @staticmethod
     def zero_cells(stats):
-        want = ["copy:seq", "copy:bar", "copy:track", "copy:comp", "split", "bars_q", "bars_nq", "from_sequences"]
+        want = ["copy:seq", "copy:bar", "copy:track", "copy:comp", "split", "bars_q", "bars_nq", "from_sequences", "toseq_copy"]
         return [w for w in want if stats.get(f"op/derive:{w}", 0) == 0]
 
 
